@@ -55,6 +55,14 @@ RULE = ("2D runs (shelf / VISF / jacket) and 1D runs (shelf / VISF) on vials off
 EXPLANATION = ("Lean theorems over the reals for the exact parts (1D cooling stage, nucleation jump, jacket ghost "
                "value) + differential check of the 2D model against _run_2D + enthalpy accounting on real fields")
 PARALLEL = True
+LEVEL_TEXT = ("PARTIAL proof. Lean 4 theorems (exact reals) about the executable models: the 1D cooling stage conserves "
+              "energy exactly (telescoping identity with ghost points, any Nz >= 2); the nucleation jump is adiabatic "
+              "pointwise in 0D/1D/2D with T_nuc < T* < T_eq_l and 0 < m_i < m_w; the side ghost value imposes "
+              "(s/dr)*q_jacket, i.e. (dz/dr)*q_jacket in the code before the repair F9 and q_jacket after it; 2D cooling "
+              "stage: per-column identity with an explicit, unbounded radial remainder. NOT proved: the balance "
+              "'within a few percent' in the solidification stage and in 2D -- this clause is decided by an independent "
+              "enthalpy accounting on the real recorded fields of every run (search, tolerance 3 % + one grid layer). "
+              "The 2D model is tied to _run_2D on every run by comparing whole recorded fields (rtol 1e-9).")
 
 
 def cases(rng, tier):
